@@ -193,7 +193,7 @@ func c11Catalogue() []c11case {
 }
 
 func C11_Jobs() []string {
-	out := []string{"catalogue/en", "catalogue/es", "catalogue/default", "precedence", "i18n", "value-ref", "multi-param", "decode-twice", "global-roots", "exec-roots", "i18n-reinstall", "i18n-names", "param-rendering"}
+	out := []string{"catalogue/en", "catalogue/es", "catalogue/default", "precedence", "i18n", "value-ref", "multi-param", "decode-twice", "global-roots", "exec-roots", "i18n-reinstall", "i18n-names", "param-rendering", "nested-record-type"}
 	return out
 }
 func C11_Covers() []string { return []string{"catalogue-case", "precedence-case"} }
@@ -232,6 +232,33 @@ func C11_Run(job string) {
 				v.Assert(e.Message == tmpl, "C11:message-precedence")
 			}
 		}
+	case "nested-record-type":
+		// an issue raised at a nested record (not a record at all; a failing struct-level test) has the
+		// type "struct" and the message a root record gets for the same failure, whichever siblings
+		// were visited before it
+		v.MapOrderChoice(true)
+		type rec struct{ X int }
+		var d struct {
+			A int
+			S string
+			N rec
+		}
+		failing := v.Choice("failure", 2) == 1
+		mk := func() *z.StructSchema {
+			return z.Struct(z.Schema{"x": z.Int()}).TestFunc(func(p any, c z.Ctx) bool { return !failing })
+		}
+		var in any = 5
+		if failing {
+			in = map[string]any{"x": 1}
+		}
+		var r rec
+		root := mk().Parse(in, &r)
+		errs := z.Struct(z.Schema{"a": z.Int(), "s": z.String(), "n": mk()}).Parse(map[string]any{"a": 1, "s": "x", "n": in}, &d)
+		v.Cover("catalogue-case")
+		v.Assert(len(errs["n"]) == 1 && len(root["$root"]) == 1, "C11:expected-exactly-one-issue")
+		e, w := errs["n"][0], root["$root"][0]
+		v.Assert(e.Dtype == "struct" && e.Dtype == w.Dtype, "C11:issue-type")
+		v.Assert(e.Code == w.Code && e.Message == w.Message, "C11:message-precedence")
 	case "multi-param":
 		// every {{placeholder}} of a message is substituted, whatever the order in which the
 		// params map is iterated (the engine permutes the range in the formatter)
